@@ -21,7 +21,8 @@ OPS = ["construct", "append", "add_state", "insert", "remove", "pop", "extend", 
 
 def FLOORS(tier):
     f = {"op:" + o: (40 if tier == "quick" else 400) for o in OPS}
-    f.update({"operand:empty-other": 30, "operand:empty-self": 30, "inv-checks": 5000})
+    f.update({"operand:empty-other": 30, "operand:empty-self": 30, "inv-checks": 5000, "continue-on-derived": 300,
+              "operand:equal-but-distinct-copy": 200, "sort:with-key": 50})
     return f
 
 
@@ -88,6 +89,9 @@ def case(ctx, rng, idx):
             # ---- operand preparation ---------------------------------------
             if op in ("append", "insert", "setitem"):
                 r = rresult(rng)
+                if shadow and rng.random() < 0.3:
+                    r = rng.choice(shadow).copy()          # an equal but distinct object
+                    ctx.cat("operand:equal-but-distinct-copy")
                 desc.append((r.state, r.value, r.spin))
             if op in ("construct", "extend", "add", "iadd", "setslice"):
                 k = rng.choice([0, 0, 1, 2, 3])
@@ -227,12 +231,19 @@ def case(ctx, rng, idx):
                 res.clear()
             elif op == "sort":
                 rev = rng.random() < 0.3
-                desc.append(rev)
-                shadow.sort(key=lambda x: x.value, reverse=rev)
-                res.sort(reverse=rev)
+                keyname = rng.choice([None, None, "neg-value", "len-state", "value"])
+                desc += [rev, keyname]
+                keyf = {None: None, "neg-value": (lambda x: -x.value), "len-state": (lambda x: len(x.state)),
+                        "value": (lambda x: x.value)}[keyname]
+                shadow.sort(key=keyf or (lambda x: x.value), reverse=rev)
+                if keyf is None:
+                    res.sort(reverse=rev)
+                else:
+                    ctx.cat("sort:with-key")
+                    res.sort(key=keyf, reverse=rev)
                 vals = [x.value for x in res]
                 if vals != [x.value for x in shadow]:
-                    ctx.violation("sort:not-ordered-by-value", "after sort values are %r" % vals, hist + [desc])
+                    ctx.violation("sort:not-ordered-like-list-sort", "after sort(key=%s, reverse=%s) values are %r" % (keyname, rev, vals), hist + [desc])
             elif op == "copy":
                 out = res.copy()
                 derived = (out, list(shadow))
@@ -288,6 +299,11 @@ def case(ctx, rng, idx):
         ok = check_inv(ctx, op, res, shadow, hist, flags)
         if ok and derived is not None:
             ok = check_inv(ctx, op + ":derived", derived[0], derived[1], hist, flags)
+            if ok and derived[1] is not None and rng.random() < 0.3:
+                # the history continues on the derived collection
+                res, shadow = derived[0], list(derived[1])
+                hist.append(["continue-on-derived"])
+                ctx.cat("continue-on-derived")
         if not ok:
             return
     if len(kinds) >= 3 and nonempty_seen:
